@@ -8,7 +8,9 @@ D=/tmp/sh/$tag
 [ -d "$D/repo" ] || /verif/tools/scratch.sh new "$tag" >/dev/null || exit 2
 /verif/tools/scratch.sh sync "$tag"
 cp /verif/known_findings.json "$D/out/"
-git -C "$D/repo" checkout -q -- . 
+git -C "$D/repo" checkout -q -- .
+# follow /repo HEAD (fix: commits land there)
+git -C "$D/repo" checkout -q --detach "$(git -C /repo rev-parse HEAD)"
 if [ "$patch" != "-" ]; then
   git -C "$D/repo" apply "$patch" || { echo "$patch: DOES NOT APPLY"; exit 2; }
 fi
